@@ -18,7 +18,7 @@ def table_digest(df, drop_suffix=('-algtime',)):
     return hashlib.sha1(blob.encode()).hexdigest()
 
 
-def run_once(sc, workdir):
+def _build(sc, workdir):
     import shutil
     from vt import trace as T
     from vt.runner import build, quiet
@@ -30,7 +30,18 @@ def run_once(sc, workdir):
     try:
         with quiet():
             sim, env = build(sc, '.', budget=step_budget(sc))
-        tr = T.Trace(sc, sim, env)
+    finally:
+        os.chdir(cwd)
+    return T.Trace(sc, sim, env)
+
+
+def _run(tr, workdir):
+    from vt import trace as T
+    from vt.runner import quiet
+    sim, env = tr.sim, tr.env
+    cwd = os.getcwd()
+    os.chdir(workdir)
+    try:
         T.wrap_algorithm(tr, sim.scheduler.algorithm)
         T.CURRENT = tr
         try:
@@ -51,6 +62,18 @@ def run_once(sc, workdir):
         os.chdir(cwd)
 
 
+def run_once(sc, workdir):
+    return _run(_build(sc, workdir), workdir)
+
+
+def run_interleaved(sc, other, workdir):
+    """the scenario's simulation is built, then another simulation is built AND run in the same interpreter, and only then
+    the first one runs: its outputs must not depend on that"""
+    tr = _build(sc, workdir)
+    run_once(other, workdir + '_b')
+    return _run(tr, workdir)
+
+
 def main():
     workdir = sys.argv[1]
     for line in sys.stdin:
@@ -65,6 +88,8 @@ def main():
             a = run_once(sc, workdir)
             b = run_once(sc, workdir)
             res = {'first': a, 'second': b, 'hashseed': os.environ.get('PYTHONHASHSEED')}
+            if msg.get('interleave') and 'machines' not in msg:
+                res['third'] = run_interleaved(sc, msg['interleave'], workdir)
         except Exception as e:       # harness problem
             import traceback
             res = {'harness_error': traceback.format_exc()}
